@@ -1630,7 +1630,8 @@ func minU32(a, b uint32) uint32 {
 
 // ------------------------------------------------------------------ case generator
 
-var simKeys = []string{"k1", "k2", "k3", "k4"}
+// (" k1 " is a key of its own: keys are compared as they are, not normalised)
+var simKeys = []string{"k1", "k2", "k3", "k4", " k1 "}
 
 func simMethodTable() (map[string]simMethod, []*pb.MethodConfig) {
 	m := map[string]simMethod{
